@@ -154,6 +154,24 @@ theorem blt_parse_total (ls : List Line) : (∃ d, loadBlt ls = .ok d) ∨ loadB
   | ok d => exact Or.inl ⟨d, rfl⟩
   | error e => rw [loadBlt_err ls e h]; exact Or.inr rfl
 
+/-! With the reader option `oneplus_weights=True` the full statement is FALSE of the current code: a ballot weight below 1
+    is refused with ValueError, not BLTParseError.  What holds: nothing but these two exceptions. -/
+theorem blt_parse_total_oneplus_partial (ls : List Line) :
+    (∃ d, loadBltWith true ls = .ok d) ∨ loadBltWith true ls = .error Err.parseError
+      ∨ loadBltWith true ls = .error (Err.other "ValueError") := by
+  cases h : loadBltWith true ls with
+  | ok d => exact Or.inl ⟨d, rfl⟩
+  | error e =>
+    rcases loadBltWith_true_err ls e h with rfl | rfl
+    · exact Or.inr (Or.inl rfl)
+    · exact Or.inr (Or.inr rfl)
+
+/-- `loads('2 1\n0.5 1 0\n0\n', oneplus_weights=True)`: ValueError -/
+theorem blt_parse_total_oneplus_witness :
+    loadBltWith true [.toks [.nat 2, .nat 1], .toks [.dec (1/2), .nat 1, .nat 0], .toks [.nat 0]]
+      = .error (Err.other "ValueError") := by
+  decide +kernel
+
 /-- **No partial or aliased data**: a document that is returned names only candidates of its own candidate list
     (in particular candidate number 0 inside a ballot is no longer read as the last candidate). -/
 theorem blt_loaded_indices_valid (ls : List Line) (d : Doc Rat) (h : loadBlt ls = .ok d) :
